@@ -226,6 +226,12 @@ func run(c *vh.Ctx) error {
 	if err != nil {
 		return err
 	}
+	for _, ex := range exs {
+		if ex.DecSrc == "probe" {
+			c.Res.Notes = append(c.Res.Notes, fmt.Sprintf("%s: decoder-case set from the dynamic probe (%s)", ex.V.Name, ex.DecWhy))
+		}
+	}
+	c.Res.Notes = append(c.Res.Notes, "decoder-case sets: go/ast scan of NewMsgFromCbor unless listed above as probe; the dynamic probe (ids 0..63, real constructor sample and bare [id]) is required in addition for every variant")
 	// vh.NewRng streams of adjacent seeds are shifts of each other; derive a
 	// decorrelated stream so that seeds really give different walks
 	c.Rng = c.Rng.Fork().Fork()
